@@ -12,7 +12,7 @@ from common import *
 import contract
 
 QUICK_CFG = ["A1", "B4", "M4", "V4"]
-ALL_CFG = list(contract.CONFIGS)
+ALL_CFG = ["A1", "B4", "P4", "M4", "S3", "R2", "V4", "Q1", "Q4", "N2", "F4"]
 
 FUNCS = [
     "SELECT upper(c3) AS a, lower(c3) AS b, length(c3) AS c, concat(c3, 'x', c3) AS d, substr(c3, 1, 1) AS e, c3 || 'z' AS f FROM t1",
